@@ -106,11 +106,17 @@ PlanOf(name) ==
                        !.Vias = {}, !.CellVias = {}, !.SizeNs = IF Q THEN {"nil"} ELSE {"wkeep"}, !.Cells = {<<0, 0>>},
                        !.Paths = {"pa"}, !.PathCellVias = IF Q THEN {"file"} ELSE {"cfg-file", "file"}, !.dq = 5, !.dt = 5]
     [] name = "bulk" ->         \* images of every encoded length class (64 KiB ... 32 MiB), through save and reopen and in a foreign package
-         [Small EXCEPT !.ops = IF Q THEN {"AddImage", "Reopen", "OpenForeign"} ELSE {"AddImage", "AddCellImage", "Reopen", "OpenForeign"},
-                       !.pre = IF Q THEN <<>> ELSE <<[op |-> "AddTable"]>>,
-                       !.Toks = IF Q THEN {"L16", "L24"} ELSE {i.t : i \in LargeImages}, !.SizeNs = {"wkeep"},
+         [Small EXCEPT !.ops = {"AddImage", "AddCellImage", "Reopen", "OpenForeign"}, !.pre = <<[op |-> "AddTable"]>>,
+                       !.Toks = {i.t : i \in LargeImages}, !.SizeNs = {"wkeep"},
                        !.Vias = {"data", "file"}, !.CellVias = {"cfg-file"}, !.Cells = {<<1, 0>>}, !.ReopenHows = {"mem", "file"},
-                       !.Shapes = LargeShapeNames, !.dq = 2, !.dt = 3]
+                       !.Shapes = LargeShapeNames, !.dq = 0, !.dt = 3]
+    [] name \in {"bulk0", "bulk1", "bulk2"} ->      \* the quick tier's share of it (the driver takes one per seed): the rung
+                                \* above 16 MiB always, the lower rungs and the ways in and out in turn
+         LET k == CHOOSE x \in 0..2 : name = "bulk" \o ToString(x)
+         IN [Small EXCEPT !.ops = {"AddImage", "Reopen", "OpenForeign"},
+                          !.Toks = {"L24", <<"L16", "L20", "L22">>[k + 1]}, !.SizeNs = {"wkeep"},
+                          !.Vias = {<<"data", "file", "data">>[k + 1]}, !.ReopenHows = {<<"file", "mem", "mem">>[k + 1]},
+                          !.Shapes = LargeShapeNames, !.dq = 2, !.dt = 0]
     [] name = "setters" ->      \* the setters on ImageInfo handles and failing cell calls change nothing
          [Small EXCEPT !.ops = {"AddImage", "AddTable", "AddCellImage", "BadCell", "Info", "Save", "Reopen"}, !.Toks = {"P1"},
                        !.SizeNs = {"wh"}, !.Cells = {<<0, 0>>}, !.InfoNs = IF Q THEN {"ResizeImage", "SetImageAlignment", "SetImagePosition"} ELSE InfoOps,
